@@ -373,4 +373,18 @@ func b2i(b bool) int {
 // plainReader hides Seek/ReadAt/ReadByte so that go-car sees a bare io.Reader.
 type plainReader struct{ r io.Reader }
 
-func (p *plainReader) Read(b []byte) (int, error) { return p.r.Read(b) }
+// Read delivers like a pipe or a socket does: mostly what is asked, every third call at most half of it,
+// now and then a single byte (short reads are within io.Reader's contract; for the models a plain
+// stream is its byte sequence).
+func (p *plainReader) Read(b []byte) (int, error) {
+	plainCalls++
+	switch {
+	case len(b) > 1 && plainCalls%7 == 3:
+		b = b[:1]
+	case len(b) > 1 && plainCalls%3 == 1:
+		b = b[:(len(b)+1)/2]
+	}
+	return p.r.Read(b)
+}
+
+var plainCalls int
